@@ -24,7 +24,7 @@ Together: the subtree of (K,y) is {K} plus the disjoint union of the subtrees of
 from z3 import And, BoolSort, ForAll, Function, Implies, Int, IntSort, Ints, MultiPattern, Not, Or
 
 from pyvc import bits
-from pyvc.bits import atomv, band, bit, bnot, bor, tz
+from pyvc.bits import atomv, band, bit, bnot, bor, maskv, tz
 from contracts.ctxtheory import Ctx
 from contracts.lemmas_z3 import (Side, ext, st_cl_def, st_dom, st_extensive, st_idem, st_least, st_monotone, st_antitone, st_up_cl,
                                  st_bits_subset, use_galois)
@@ -33,7 +33,6 @@ from contracts.registry import Unit, register
 I = IntSort()
 B = BoolSort()
 
-maskv = Function('maskv', I, I)      # (1 << j) - 1: the attributes below j
 
 
 class CbO:
@@ -89,9 +88,6 @@ class CbO:
             ('agree.intro', ForAll([K, D, y], Implies(Not(T.agree(K, D, y)),
                                                       And(0 <= T.w_agree(K, D, y), T.w_agree(K, D, y) < y, bit(D, T.w_agree(K, D, y)),
                                                           Not(bit(K, T.w_agree(K, D, y))))), patterns=[T.agree(K, D, y)])),
-            # B12 (validated against CPython in pyvc/bits.py: selftest_axioms; Lean: Bits.lean B12_testBit_two_pow_sub_one)
-            ('B12.mask', ForAll([x], Implies(x >= 0, And(atomv(x) - 1 == maskv(x), maskv(x) >= 0)), patterns=[atomv(x)])),
-            ('B12.bits', ForAll([x, k], Implies(x >= 0, bit(maskv(x), k) == And(0 <= k, k < x)), patterns=[bit(maskv(x), k)])),
         ]
 
     # ---- lemma statements
